@@ -21,6 +21,7 @@ import (
 
 	"verif/engine/enum"
 	"verif/engine/evid"
+	"verif/engine/shard"
 
 	"github.com/whatap/golib/util/bitutil"
 	"github.com/whatap/golib/util/hash"
@@ -563,6 +564,9 @@ func Run(c *evid.Ctx) {
 	}
 	c.Assume("the murmur references are independent re-implementations of the stream-lib port with the unsigned byte reading; no external specification is available offline")
 	c.Assume("'values never change' is decided against SHA-256 digests of the output tables pinned in harness/props/c15/golden.json")
+	// "pure": no state shared between two calls - decided in the race mode of the explorer (race.go)
+	shard.SpawnRace(c, 2)
+	c.Cov["pure_function_pairs_in_race_mode"] = len(raceItems())
 }
 
 func clip(b []byte) []byte {
